@@ -40,6 +40,8 @@ func main() {
 		os.Exit(cmdAxis(os.Args[2:]))
 	case "show":
 		os.Exit(cmdShow(os.Args[2:]))
+	case "paramnames":
+		os.Exit(cmdParamNames(os.Args[2:]))
 	case "list":
 		var ids []string
 		for k := range registry {
